@@ -15,8 +15,7 @@ def sounding_notes(xml_bytes):
     for part in root.findall("part"):
         divisions = Fraction(1)
         cursor = Fraction(0)
-        notes = []                     # [onset, end, midi]
-        open_ties = {}                 # midi -> index into notes
+        raw = []                       # (onset, end, midi, tie types) of every pitched note in document order
         for measure in part.findall("measure"):
             start = cursor
             reach = cursor
@@ -49,15 +48,22 @@ def sounding_notes(xml_bytes):
                     midi = 12 * (int(pitch.find("octave").text) + 1) + NAT[pitch.find("step").text] + \
                         (int(float(pitch.find("alter").text)) if pitch.find("alter") is not None else 0)
                     types = {t.get("type") for t in el.findall("tie")}
-                    if "stop" in types and midi in open_ties:
-                        i = open_ties[midi]
-                        notes[i][1] = onset + dur
-                        if "start" not in types:
-                            del open_ties[midi]
-                    else:
-                        notes.append([onset, onset + dur, midi])
-                        if "start" in types:
-                            open_ties[midi] = len(notes) - 1
+                    raw.append((onset, onset + dur, midi, types))
             cursor = reach
+        # ties are paired by pitch and by time (not by document order: voices are written one after the other):
+        # a note with a tie stop continues the note of that pitch with a tie start that ends where it begins
+        raw.sort(key=lambda r: (r[0], r[1]))
+        notes = []                     # [onset, end, midi]
+        open_ties = {}                 # (midi, end time) -> index into notes
+        for onset, end, midi, types in raw:
+            k = (midi, onset)
+            if "stop" in types and k in open_ties:
+                i = open_ties.pop(k)
+                notes[i][1] = end
+            else:
+                notes.append([onset, end, midi])
+                i = len(notes) - 1
+            if "start" in types:
+                open_ties[(midi, end)] = i
         out[part.get("id")] = sorted((n[0], n[1] - n[0], n[2]) for n in notes)
     return out
